@@ -117,10 +117,12 @@ func cmdPortionCheck(args []string) {
 		line["combometa"] = cm
 		line["combosplit"] = J{"st": cs["st"], "a": cs["a"], "b": cs["b"]}
 		line["varsplit"] = splitChannel(fmt.Sprintf("vars { portion $p }\nsend [COIN %d] (\n source = @world\n destination = { $p to @a\n remaining to @b }\n)", total), map[string]string{"p": g.Lex})
-		// long numerals (beyond TLC's integers): the same value spelled with 25 more digits must render identically (scaling lift)
+		// long numerals (beyond TLC's integers): the same value spelled with 1 to 40 more digits must render identically (scaling lift)
 		long := []any{}
 		if n%5 == 0 {
-			zeros := strings.Repeat("0", 25)
+			// the number of extra digits rotates over 1..40: a table of powers of ten, a machine-word fast path or a fixed buffer
+			// is wrong for one particular count of digits only (10^19 and 10^20 do not fit 64 bits)
+			zeros := strings.Repeat("0", (n/5)%40+1)
 			var variants []string
 			if i := strings.Index(g.Lex, "/"); i >= 0 {
 				num, den := strings.TrimSpace(g.Lex[:i]), strings.TrimSpace(g.Lex[i+1:])
